@@ -184,6 +184,11 @@ def jobs(tier, seed):
             if ej[4] in SIB_ROWS and ej[0] in ((), (0x67,)):
                 ej = (ej[0], ej[1], ej[2], 'reps', ej[4])
             out.append(('dec', ej, tier))
+        # every other row in the thinnest ModRM slice, without prefix and under 66 (operand kinds / register classes are per row)
+        chosen = set((j[1][0], j[1][1], j[1][2]) for j in out)
+        for ej in E.make_jobs(tier, seed, prefix_sets=[(), (0x66,)], sib='one', per_signature=False):
+            if (ej[0], ej[1], ej[2]) not in chosen:
+                out.append(('dec', ej, tier))
         return out
     ps = [(), (0x66,), (0x67,), (0x66, 0x67), (0x2E,), (0x36,), (0x26,), (0x64,), (0x65,), (0xF2,), (0xF3,), (0xF0,)]
     return [('dec', ej, tier) for ej in E.make_jobs(tier, seed, prefix_sets=ps, sib='reps', per_signature=False)] + \
